@@ -97,8 +97,10 @@ func parkedG(g G) bool {
 const settleTimeout = 10 * time.Second
 
 // settleQuiet waits until every relevant goroutine other than the caller is parked.
-func settleQuiet() error {
-	deadline := time.Now().Add(settleTimeout)
+func settleQuiet() error { return settleWithin(settleTimeout) }
+
+func settleWithin(timeout time.Duration) error {
+	deadline := time.Now().Add(timeout)
 	sleep := 20 * time.Microsecond
 	var last string
 	for {
@@ -116,7 +118,7 @@ func settleQuiet() error {
 			return nil
 		}
 		if time.Now().After(deadline) {
-			return fmt.Errorf("no quiescent snapshot within %v; still active:\n%s", settleTimeout, last)
+			return fmt.Errorf("no quiescent snapshot within %v; still active:\n%s", timeout, last)
 		}
 		time.Sleep(sleep)
 		if sleep < 2*time.Millisecond {
